@@ -90,7 +90,8 @@ impl Campaign for KeyCampaign {
   fn world(&self) -> &'static str { "A" }
   fn runs(&self, thorough: bool) -> u64 { if thorough { self.thorough_runs } else { self.quick_runs } }
   fn declare(&self, acc: &mut Acc) {
-    for f in ["chan_duplicate_press", "chan_spurious_release", "chan_dropped_event", "reset_release_all", "unseen_key_activity"] { acc.declare_fault(f); }
+    for f in ["chan_duplicate_press", "chan_spurious_release", "chan_dropped_event"] { acc.declare_fault(f); }
+    if self.resets { for f in ["reset_release_all", "unseen_key_activity"] { acc.declare_fault(f); } }
   }
   fn run(&self, seed: u64, _idx: u64, ctx: &mut Ctx) -> RunResult {
     let mut st = GenStats::default();
